@@ -25,9 +25,10 @@ def scope_of(d, r):
                 ncell=d['shape'][0] * d['shape'][1], year=yrs[0], start_hour=hour, shape='x'.join(str(x) for x in d['shape']))
 
 
-def build_hand(r):
+def build_hand(r, reverse=False):
     """a CAMx-convention file built in memory from the recipe: no ETFLAG, no boundary
-    definition records, every data array a non-contiguous view"""
+    definition records, every data array a non-contiguous view; reverse = the data variables
+    are created in reverse order (the formats fix the record order, not the source)"""
     P = core.load_lib()
     from PseudoNetCDF.core._variables import PseudoNetCDFVariable
     fmt = r['fmt']
@@ -45,7 +46,7 @@ def build_hand(r):
     for t in range(n):
         tf[t, :, 0] = tb[t][0]
         tf[t, :, 1] = tb[t][1]
-    for nm in names:
+    for nm in (names[::-1] if reverse else names):
         exp = cl.expected_var(r, nm)
         if fmt == 'lateral_boundary':
             dims = ('TSTEP', 'ROW' if nm.split('_')[0] in ('WEST', 'EAST') else 'COL', 'LAY')
@@ -91,6 +92,7 @@ class Prop(core.Prop):
     def bounds(self, tier):
         b = {f: len(camx_u.descs(f, tier)) for f in camx_u.FORMATS}
         b['landuse'] = len(camx_u.landuse_descs(tier))
+        b['bpch'] = 32 if tier == 'quick' else 96
         return b
 
     def worker_init(self):
@@ -124,6 +126,25 @@ class Prop(core.Prop):
                 yield d
         for d in camx_u.landuse_descs(tier):
             yield d
+        # GEOS-Chem binary punch files: the same record walker / codec, cases shared with C18
+        for nt in (1, 2):
+            for ncat in (1, 2):
+                for ntr in (1, 2):
+                    for start in ([1, 1, 1], [2, 3, 2]):
+                        for lay in (('2+3',) if tier == 'quick' else ('1', '2+3', '3+1')):
+                            yield {'fmt': 'bpch', 'case': {'nt': nt, 'ncat': ncat, 'ntr': ntr, 'layers': lay,
+                                                           'start': start, 'tables': 'complete'}}
+
+    def run_bpch(self, d):
+        from . import c18
+        if not hasattr(self, '_c18'):
+            self._c18 = c18.Prop()
+            self._c18.tier = self.tier
+            self._c18.worker_init()
+        r = self._c18.run_one(d['case'])
+        for v in r['viol']:
+            v['fmt'] = 'bpch'
+        return r
 
     def run_landuse(self, d):
         r = camx_u.materialize_landuse(d)
@@ -147,6 +168,8 @@ class Prop(core.Prop):
         sources = [('writer', f)] if f is not None and not vs else []
         try:
             sources.append(('writer-hand-built', cl.lu_hand(r)))
+            if r['others']:
+                sources.append(('writer-hand-built-reversed', cl.lu_hand(r, reverse=True)))
         except Exception as e:
             vs.append(viol('harness', ('hand', 'landuse'), repr(e), **scope))
         for tag, src in sources:
@@ -172,16 +195,16 @@ class Prop(core.Prop):
         return result('viol' if vs else 'ok', vs, [h64(raw)], ntrans, h64('c09', sorted(d.items(), key=str)),
                       h64(raw) if not vs else None)
 
-    def hand_built(self, d, r, raw, scope):
+    def hand_built(self, d, r, raw, scope, reverse=False):
         """library writer fed with a file built in memory (no ETFLAG, no boundary
         definition records, non-contiguous arrays) -> reference decoder"""
         fmt = r['fmt']
         vs = []
-        f = build_hand(r)
+        f = build_hand(r, reverse)
         q = self.path('hand')
         if os.path.exists(q):
             os.unlink(q)
-        sig = ('writer-hand-built', fmt)
+        sig = ('writer-hand-built-reversed' if reverse else 'writer-hand-built', fmt)
         try:
             cl.write(fmt, f, q)
             wraw = open(q, 'rb').read()
@@ -205,6 +228,8 @@ class Prop(core.Prop):
     def run_one(self, d):
         if d['fmt'] == 'landuse':
             return self.run_landuse(d)
+        if d['fmt'] == 'bpch':
+            return self.run_bpch(d)
         r = camx_u.materialize(d)
         fmt = d['fmt']
         raw = camx_u.encode(r)
@@ -252,6 +277,10 @@ class Prop(core.Prop):
                                exc=type(e).__name__, **scope))
         if fmt in ('uamiv', 'lateral_boundary'):
             vs.extend(self.hand_built(d, r, raw, scope))
+            ntrans += 1
+        elif len(cl.varnames(r)) >= 2:
+            # the format fixes the record order: a source whose variables were created in another order
+            vs.extend(self.hand_built(d, r, raw, scope, reverse=True))
             ntrans += 1
         if fmt == 'uamiv':
             # little-endian file (numeric words swapped, characters not) read with endian='little'
